@@ -402,6 +402,26 @@ def run_unit(unit, rng, ctx):
                     n2 = int(rng.integers(2, min(len(part.events), len(np.asarray(part.states)) - 1, 5) + 1)) if min(len(part.events), len(np.asarray(part.states)) - 1) >= 2 else 1
                     if check_transitions_split(part, n2, ctx, what + f' [a part of split({n}) split again]', wit) is not None:
                         ctx.count('nested_splits')
+        # a Transitions object built with the public constructor whose diffusing-species trajectory is not the plain
+        # species filter of its full trajectory (here: rigidly displaced by a constant vector, as after a manual
+        # re-centring): the parts carry frame ranges of THAT trajectory
+        if n_events >= 2 and T >= 6 and rng.integers(2):
+            from gemdat.transitions import Transitions
+
+            off = rng.uniform(0.05, 0.45, size=(1, 1, 3))
+            Pd = np.mod(P[:, : sys_.n_floating] + off, 1)
+            diff2 = gen.make_trajectory(sys_.matrix, list(tr.diff_trajectory.species), Pd, time_step=sys_.time_step, metadata={'temperature': sys_.temperature})
+            tr3 = Transitions(trajectory=tr.trajectory, diff_trajectory=diff2, sites=tr.sites, events=tr.events.copy(), states=np.asarray(tr.states).copy(), inner_states=np.asarray(tr.inner_states).copy())
+            n4 = int(rng.integers(2, min(n_events, T - 1, 5) + 1)) if min(n_events, T - 1) >= 2 else 1
+            Pd[Pd == 1] = 0
+            try:
+                parts4 = tr3.split(n4)
+            except (ValueError, IndexError):
+                parts4 = None
+            if parts4 is not None:
+                parts_are_frame_ranges([p_.diff_trajectory for p_ in parts4], Pd, ctx, what + ' [diffusing-species trajectory displaced by a constant vector]', wit, f'Transitions.split({n4}).diff_trajectory')
+                parts_are_frame_ranges([p_.trajectory for p_ in parts4], P, ctx, what + ' [diffusing-species trajectory displaced by a constant vector]', wit, f'Transitions.split({n4}).trajectory')
+                ctx.count('splits_of_objects_with_an_independent_diffusing_trajectory')
         # the same history with its event table presented differently (sorted by time instead of by atom; row
         # labels kept from the old order, offset, or with gaps): a Transitions object built from it splits alike
         if n_events >= 2:
